@@ -1,3 +1,127 @@
+/*
+ * native_main.c — entry point of a natively compiled proof unit (gcc -DVERIF_NATIVE).
+ *   replay.exe                 run the harness once on the input compiled in from the verifier's trace
+ *   replay.exe bytes <hex>     run the harness once on IN given as raw bytes
+ *   replay.exe search <seed> <seconds>
+ *                              seeded boundary/random search around the trace input for an input on
+ *                              which a harness-level CHECK fails (used when the verifier's counterexample
+ *                              starts from a havocked loop state and does not replay as is)
+ * exit: 1 + "REPLAY-FAIL ..." a CHECK failed; 77 an ASSUME was false; 0 passed.
+ */
 #include <stdio.h>
+#include <stdlib.h>
+#include <string.h>
+#include <time.h>
+#include <unistd.h>
+#include <sys/wait.h>
+
 void VERIF_HARNESS(void);
-int main(void) { VERIF_HARNESS(); puts("REPLAY-PASS"); return 0; }
+extern unsigned long verif_in_size;
+extern void *verif_in_addr;
+extern const unsigned char *verif_in_override;
+
+static unsigned long long rs;
+static unsigned long long rnd(void)
+{
+	rs ^= rs << 13; rs ^= rs >> 7; rs ^= rs << 17;
+	return rs;
+}
+
+static void put_word(unsigned char *b, unsigned long off, int w, unsigned long long v)
+{
+	memcpy(b + off, &v, w);
+}
+static unsigned long long get_word(unsigned char *b, unsigned long off, int w)
+{
+	unsigned long long v = 0;
+	memcpy(&v, b + off, w);
+	return v;
+}
+
+int main(int argc, char **argv)
+{
+	if (argc >= 3 && !strcmp(argv[1], "bytes")) {
+		unsigned char *b = calloc(1, verif_in_size + 1);
+		for (unsigned long i = 0; i < verif_in_size && argv[2][2 * i] && argv[2][2 * i + 1]; i++) {
+			unsigned int x;
+			sscanf(argv[2] + 2 * i, "%2x", &x);
+			b[i] = x;
+		}
+		verif_in_override = b;
+		VERIF_HARNESS();
+		puts("REPLAY-PASS");
+		return 0;
+	}
+	if (argc >= 4 && !strcmp(argv[1], "search")) {
+		static const int widths[4] = {1, 2, 4, 8};
+		unsigned long n = verif_in_size;
+		unsigned char *base = malloc(n + 8), *cur = malloc(n + 8);
+		time_t t_end = time(0) + atoi(argv[3]);
+		unsigned long trials = 0;
+		rs = strtoull(argv[2], 0, 10) * 2654435761ULL + 88172645463325252ULL;
+		/* baseline = the compiled-in trace input: run the loader once in a child to obtain its bytes */
+		int pfd[2];
+		if (pipe(pfd)) return 2;
+		if (fork() == 0) {
+			extern void verif_export_in(int fd);
+			verif_export_in(pfd[1]);
+			_exit(0);
+		}
+		close(pfd[1]);
+		unsigned long got = 0;
+		while (got < n) {
+			long r = read(pfd[0], base + got, n - got);
+			if (r <= 0) break;
+			got += r;
+		}
+		wait(0);
+		if (got != n) memset(base, 0, n);
+		while (time(0) < t_end) {
+			memcpy(cur, base, n);
+			int nm = 1 + rnd() % 3;
+			for (int m = 0; m < nm; m++) {
+				int w = widths[rnd() % 4];
+				if ((unsigned long)w > n) w = 1;
+				unsigned long off = (rnd() % (n / w ? n / w : 1)) * w;
+				unsigned long off2 = (rnd() % (n / w ? n / w : 1)) * w;
+				unsigned long long v = get_word(cur, off, w), v2 = get_word(cur, off2, w);
+				switch (rnd() % 8) {
+				case 0: v += 1; break;
+				case 1: v -= 1; break;
+				case 2: v = v2; break;
+				case 3: v = v2 + 1; break;
+				case 4: v = v2 - 1; break;
+				case 5: v = rnd() % 16; break;
+				case 6: v = rnd(); break;
+				default: v ^= 1ULL << (rnd() % (8 * w)); break;
+				}
+				put_word(cur, off, w, v);
+			}
+			trials++;
+			fflush(stdout);
+			pid_t pid = fork();
+			if (pid == 0) {
+				verif_in_override = cur;
+				alarm(5);
+				VERIF_HARNESS();
+				_exit(0);
+			}
+			int st = 0;
+			waitpid(pid, &st, 0);
+			if (WIFEXITED(st) && WEXITSTATUS(st) == 1) {
+				printf("SEARCH-FOUND trials=%lu bytes=", trials);
+				for (unsigned long i = 0; i < n; i++) printf("%02x", cur[i]);
+				printf("\n");
+				return 1;
+			}
+			/* a passing input that satisfied every assumption becomes the new base now and then */
+			if (WIFEXITED(st) && WEXITSTATUS(st) == 0 && rnd() % 4 == 0)
+				memcpy(base, cur, n);
+		}
+		printf("SEARCH-NONE trials=%lu\n", trials);
+		return 0;
+	}
+	VERIF_HARNESS();
+	puts("REPLAY-PASS");
+	return 0;
+}
